@@ -14,7 +14,7 @@ CONSTANTS MaxEntries, MaxOrdinal
 
 E(d, n, k, c) == [dir |-> d, name |-> n, kind |-> k, content |-> c]
 
-\* kind: "note" = <name>.md, "txt" = <name>.txt, "noext" = <name>, "mdmd" = <name>.md.md
+\* kind: "link" = <name>.md as a symbolic link, "note" = <name>.md, "txt" = <name>.txt, "noext" = <name>, "mdmd" = <name>.md.md
 \* content: "messy" (formatting changes it), "clean" (already formatted), "empty", "big"
 Catalogue == {
     E("", "a", "note", "messy"),
@@ -29,7 +29,8 @@ Catalogue == {
     E("", "c", "mdmd", "messy"),
     E("", "notes", "txt", "messy"),
     E("d", "README", "noext", "messy"),
-    E("d", "a.md", "txt", "messy")            \* a.md.txt: contains ".md" but is no note
+    E("d", "a.md", "txt", "messy"),           \* a.md.txt: contains ".md" but is no note
+    E("", "lnk", "link", "big")               \* lnk.md is a symbolic link to a file outside the library
 }
 
 Syscalls == {"openat", "write", "close", "rename", "unlink", "chmod"}
@@ -40,7 +41,7 @@ Faults ==
     \cup {[type |-> "inject", sys |-> s, ord |-> o, kind |-> k] : s \in Syscalls, o \in 1..MaxOrdinal, k \in Kinds}
     \cup {[type |-> "fsize", sys |-> "", ord |-> o, kind |-> ""] : o \in {0, 1, 7, 100}}
 
-IsNote(e) == e.kind \in {"note", "mdmd"}
+IsNote(e) == e.kind \in {"note", "mdmd", "link"}
 
 VARIABLES tree, fault, done
 vars == <<tree, fault, done>>
